@@ -1939,6 +1939,116 @@ class _Absent:
         return self.memo[k]
 
 
+def _forget_function_covers_slots(ck, R, cls, slots, dec):
+    """forget_function: for every slot the queries answer from, the keys taken out of the slot are the slot's OWN keys of the function.
+    A removal event of slot S is `self.S.pop(k) / del self.S[k]` or a method of the class that (by `_Absent`) leaves S without its
+    argument; it *covers* S when the key is enumerated from S itself (through any comprehension / copy / union / local list) or from
+    a per-function index, and no test on another answering slot stands between the enumeration and the removal.  Keys enumerated
+    from a different slot cover only what the two slots share: an entry held by S alone survives the forget."""
+    from .cache_model import CacheModel, self_attr
+    from .c06 import ForgetScope
+    m = cls.methods.get("forget_function")
+    ck.need(m is not None, "MemoryCache.forget_function not found")
+    cm = CacheModel(ck)
+    fa = FA(ck, m)
+    me = m.params[0] if (m.params and not m.is_static) else "self"
+    ck.need(me == "self", "MemoryCache.forget_function: receiver is not called self")
+    state = {x for x in (cm.map, cm.queue, cm.refs, cm.counter, cm.budget) if x}
+    for slot in sorted(slots):
+        events = []     # (key expression, site)
+        for n in A.walk_body(m.node):
+            if isinstance(n, ast.Call):
+                recv, nm = A.call_recv(n), A.call_attr(n)
+                if recv is not None and isinstance(recv, ast.Attribute) and _slot_expr(recv, me) == slot and nm in _REMOVERS and n.args:
+                    events.append((n.args[0], n))
+                    continue
+                callee, off = _own_method(ck.repo, cls, n, me)
+                if callee is not None and callee.qual != m.qual:
+                    for i, a in enumerate(n.args):
+                        if isinstance(a, ast.Starred) or i + off >= len(callee.params):
+                            continue
+                        if dec.decide(callee, slot, callee.params[i + off], False, 1)[0]:
+                            events.append((a, n))
+                            break
+            elif isinstance(n, ast.Delete):
+                for t in n.targets:
+                    if isinstance(t, ast.Subscript) and _slot_expr(t.value, me) == slot and isinstance(t.value, ast.Attribute):
+                        events.append((t.slice, n))
+        rebuilt = [st for st in fa.stmts((ast.Assign, ast.AnnAssign, ast.AugAssign))
+                   if any(_slot_expr(t, me) == slot and isinstance(t, ast.Attribute) for t in (st.targets if isinstance(st, ast.Assign) else [st.target]))]
+        ck.need(events or not rebuilt, "MemoryCache.forget_function rebuilds self.%s wholesale (`%s`): not followed" % (slot, A.short(rebuilt[0], 50) if rebuilt else ""))
+        covering, why_not = [], None
+        for (k, site) in events:
+            ids = fa.nodes(site)
+            if not ids:
+                continue
+            sc = ForgetScope(fa, cm)
+            from .c06 import _comprehension_env
+            for i in ids:
+                env = _comprehension_env(fa, k)
+                q = site
+                while q is not None and not isinstance(q, ast.stmt):
+                    if isinstance(q, (ast.ListComp, ast.SetComp, ast.GeneratorExp, ast.DictComp)):
+                        for g in q.generators:
+                            for cnd in g.ifs:
+                                sc.filters.append((cnd, i, set(env)))
+                    q = fa.pm.get(q)
+                sc.trace(k, i, env)
+                sc.path_filters(i, k)
+            index = sorted(f for f in sc.fields if f not in state and f not in slots)
+            if slot not in sc.fields and not index:
+                src = ", ".join("self." + f for f in sorted(sc.fields)) or ("`%s`" % A.short(sc.other[0], 40) if sc.other and sc.other[0] is not None else "something else")
+                why_not = why_not or (site, "the keys it removes from self.%s (`%s`) are enumerated from %s, not from self.%s: an entry that only self.%s holds "
+                                            "(a result too large for the cache, or one whose cache entry was pushed out, lives on in the weak references alone) "
+                                            "is never selected" % (slot, A.short(site, 40), src, slot, slot))
+                continue
+            narrowed = None
+            for flt in sc.filters:
+                c0 = flt[0]
+                try:
+                    e0 = _parse(c0) if isinstance(c0, str) else (c0 if isinstance(c0, ast.Lambda) else fa.expand(c0, flt[1]))
+                except (SyntaxError, AnalysisError, Exception):
+                    e0 = c0 if not isinstance(c0, str) else None
+                if e0 is None:
+                    continue
+                others = {self_attr(x) for x in ast.walk(e0) if self_attr(x) in slots and self_attr(x) != slot}
+                if others:
+                    narrowed = (c0 if isinstance(c0, str) else A.short(c0, 50), sorted(others)[0])
+                    break
+            if narrowed:
+                why_not = why_not or (site, "whether a key is removed from self.%s depends on self.%s (`%s`): an entry that only self.%s holds survives"
+                                            % (slot, narrowed[1], narrowed[0], slot))
+                continue
+            if sc.partial:
+                why_not = why_not or (site, "only `%s` -- some of the selected keys, picked by position -- is removed from self.%s" % (A.short(sc.partial[0], 40), slot))
+                continue
+            # the statement that performs the sweep: the outermost loop around the removal (the loop body may run zero times)
+            top = site
+            q = fa.pm.get(site)
+            while q is not None and q is not m.node:
+                if isinstance(q, (ast.For, ast.While, ast.AsyncFor)):
+                    top = q
+                q = fa.pm.get(q)
+            covering += fa.nodes(top if top is not site else (fa.stmt_of(site) or site))
+        ok = bool(covering) and fa.cfg.must_pass(covering, fa.cfg.exit)
+        origin = slots[slot][0]
+        if ok:
+            msg = "forget_function sweeps self.%s (from which %s answers) over its own keys of the function on every path" % (slot, origin)
+            at = fa.where()
+        else:
+            if why_not is not None:
+                detail, at = why_not[1], fa.where(why_not[0])
+            elif not events:
+                detail, at = "it removes nothing from self.%s" % slot, fa.where()
+            else:
+                wit = fa.cfg.path(fa.cfg.entry, fa.cfg.exit, removed=covering)
+                detail, at = "it can return (path %s) without sweeping self.%s" % (fa.cfg.describe_path(wit) if wit else "?", slot), fa.where()
+            msg = ("forget_function leaves entries of the forgotten function in self.%s, from which %s answers: %s. After forget_all() the cache still "
+                   "reports such a call as memoized (the re-computed result is then never stored and the body runs on every later call) or serves the "
+                   "forgotten value" % (slot, origin, detail))
+        ck.ob(R, fa.key(None, "function-sweep-covers:" + slot), ok, msg, at)
+
+
 def check_forget_reaches_answers(ck, R):
     ck.rule(R, "forgetting reaches every place that can still answer 'memoized': on every normal path the cache's forget_call / "
                "forget_everything leave none of the slots its queries answer from holding the key, and the backend's forget "
@@ -1962,6 +2072,7 @@ def check_forget_reaches_answers(ck, R):
                   "%s can return (path %s) while self.%s still holds %s, and %s answers from self.%s: after forgetting, the cache still reports the "
                   "call as memoized (the re-computed result is then never stored and the body runs on every later call) or serves the forgotten value"
                   % (name, fa.cfg.describe_path(wit) if wit else "?", slot, "entries" if keyless else "the key of the forgotten call", origin, slot), fa.where())
+    ck.run(_forget_function_covers_slots, ck, R, cls, slots, dec)
     # the backend: every source is_memoized consults is told to forget
     bq = "storage_base.StorageBackendBase"
     bcls = ck.repo.cls(bq)
